@@ -70,6 +70,10 @@ def make_handlers():
                  z3.Implies(z3.And(slc), z3.And((O["tx_valid"] == 1) == env.status_due,
                                                 z3.Implies(env.status_due, z3.And(O["tx_last"] == 1, O["tx_first"] == 0)))),
                  clause="accepts SET_LINE_CODING: the status stage is answered with a zero-length packet, no other data is sent")
+        c.ensure("set_line_coding_status_packet_is_data1",
+                 z3.Implies(z3.And(slc, env.status_due), O["tx_pid_toggle"] == 1),
+                 clause="accepts SET_LINE_CODING: the status-stage zero-length packet is sent as DATA1 (USB 2.0 8.5.3: the status "
+                        "stage always uses DATA1; a host discards a DATA0 status packet and the request never completes)")
         c.ensure("set_line_coding_never_stalled", z3.Implies(slc, z3.And(O["hout_stall"] == 0, O["hout_nak"] == 0, no_state_change)),
                  clause="accepts SET_LINE_CODING: never STALLed / NAKed, and it changes no device state")
         # ---- the other class and vendor (and reserved) requests are STALLed
@@ -123,15 +127,8 @@ def wiring(c):
     from luna.gateware.usb.usb2.packet import USBTokenDetector, USBHandshakeDetector
     from luna.gateware.usb.usb2.transfer import USBInTransferManager
     from luna.gateware.memory import TransactionalizedFIFO
-    from .c10_unsupported_requests_stall import within
-    from hwv.contract import BindingError
-
-    def inside(cls, parent):
-        found = [x for x in ts.instances(cls) if within(ts, x, parent)]
-        if len(found) != 1:
-            raise BindingError(f"expected exactly one {cls.__name__} inside the {type(parent).__name__} instance, found {len(found)}")
-        return found[0]
-    fifo = inside(TransactionalizedFIFO, out4)
+    from .c10_unsupported_requests_stall import inside
+    fifo = inside(ts, TransactionalizedFIFO, out4)
     fifo_rd = ts.of(fifo.read_data)
     c.ensure("rx_stream_is_out_endpoint_fifo",
              z3.And(O["o_valid"] == ~ts.of(fifo.empty), O["o_payload"] == bits(fifo_rd, 7, 0),
@@ -150,7 +147,7 @@ def wiring(c):
                              ts.of(o.interface.tokenizer.new_token) == ts.of(td.interface.new_token),
                              ts.of(o.interface.handshakes_in.ack) == ts.of(hsd.detected.ack)) for o in eps]),
              clause="every endpoint sees the device's token detector and handshake detector (the interface C11/C13 assume)")
-    managers = [inside(USBInTransferManager, o) for o in (in3, in4)]
+    managers = [inside(ts, USBInTransferManager, o) for o in (in3, in4)]
     c.ensure("in_endpoints_active_for_their_number",
              z3.And(*[z3.Or(*[(ts.of(m.active) == 1) == (tok_ep == num) for m in managers]) for num in (3, 4)]),
              clause="the IN transfer managers are active exactly for tokens to endpoint 3 / endpoint 4")
